@@ -117,7 +117,10 @@ def reachable(ctx: Ctx, n, salt):
     leaves = []
     fixed = [">=1.2,<2.0", ">=1.2,<2.post1", "<1.1.post1||>=1.2.0", "<1.0||>=1.0.post1", ">=1!1.2,<1!2", "~=1.2", "==1.*", "!=1.5", "!=1.5.*", ">=1.0", "<2", "==2.0",
              ">=2.3,<2.4.0", ">=2,<3.0", ">=1.2.3,<1.3", ">=1.0a1,<2", ">=1.0,<2.0.dev1", ">1.0,<=2.0", "<1||>=2", "<1.0||>1.0", "<1.5||>=1.6", "<2.0||>=2.1.0", "<2||>=2.1.0",
-             ">=1.2.post1,<2", "~=1.2.post1", ">=0,<1", "<1||>=1.1||<0.5", ">=1.0.0,<1.1", ">=3.6,<4", ">=3.6,<3.7", "<3.6.0||>=3.7", "", "<empty>", "!=1!2.*", "==1!2.*"]
+             ">=1.2.post1,<2", "~=1.2.post1", ">=0,<1", "<1||>=1.1||<0.5", ">=1.0.0,<1.1", ">=3.6,<4", ">=3.6,<3.7", "<3.6.0||>=3.7", "", "<empty>", "!=1!2.*", "==1!2.*",
+             # zero-numbered dev/post segments on the edges of a hole / of a ~=-shaped range (0 is falsy: guards written as `v.dev or v.post` miss them)
+             "<1.2.0.dev0||>=1.3.0", "<1.2.0||>=1.3.0.dev0", "<1.2.0||>=1.3.0.post0", "<1.2.0.post0||>=1.3.0", "<1!1.2.0.dev0||>=1!1.3.0", "<1.2.0a0||>=1.3.0", "<1.2.0||>=1.3.0rc0",
+             ">=1.2.dev0,<2.0", ">=1.2,<2.0.dev0", ">=1.2.post0,<2.0", ">=1.2a0,<2.0", ">=1.2,<2.0a0", ">=1.2,<2.0rc0", ">=3.8.0.dev0,<3.9.0"]
     # every inclusivity combination over three bounds: equal-bound coincidences are frequent
     bs = ["1.0", "1.5", "2.0"]
     for i, lo in enumerate(bs):
